@@ -140,16 +140,33 @@ class C12(Check):
                     await asyncio.sleep(0)
                     await asyncio.sleep(0)
 
+            buffers = {}
             for rnd in case["rounds"]:
                 nsent = len(sent)
                 for q in rnd:
                     info[q["id"]] = q
-                    tasks[q["id"]] = asyncio.ensure_future(
-                        ec.roundtrip(ECCmd.FPRD, q["id"], 0x10, data=bytes([q["id"] & 0xff]) * q["len"]))
+                    # the payload comes in every representation a caller may hold it in: bytes, bytearray, memoryview, an array of
+                    # 16-bit items (its len() counts items, not bytes); its content is what the request is recognised by
+                    raw = bytes([q["id"] & 0xff]) * q["len"]
+                    rep = q["id"] % 5
+                    if rep in (1, 4):
+                        payload = bytearray(raw)
+                    elif rep == 2:
+                        payload = memoryview(raw)
+                    elif rep == 3 and q["len"] % 2 == 0 and q["len"]:
+                        import array
+                        payload = array.array("H", raw)
+                    else:
+                        payload = raw
+                    buffers[q["id"]] = payload
+                    tasks[q["id"]] = asyncio.ensure_future(ec.roundtrip(ECCmd.FPRD, q["id"], 0x10, data=payload))
                 await asyncio.sleep(0)
                 for q in rnd:
                     if q["cancel"] == "before":
                         tasks[q["id"]].cancel()
+                        if q["id"] % 5 == 4:
+                            # the owner of a cancelled request re-uses its buffer for something else
+                            buffers[q["id"]][:] = b"\xee" * (q["len"] // 2 + 3)
                 for _ in range(4):
                     await asyncio.sleep(0)
                 # frames of this round
@@ -196,6 +213,9 @@ class C12(Check):
         try:
             try:
                 res = asyncio.run(go())
+            except ValueError as e:
+                # a frame on the wire that cannot be taken apart datagram by datagram (lengths that do not add up)
+                return Err(5, f"the master sent a frame that is not a sequence of whole datagrams: {e}")
             except BaseException:
                 if not stalled:
                     raise
@@ -213,8 +233,8 @@ class C12(Check):
         return f"{{| q_id := {cz(q['id'])}; q_data := zeros {cnat(q['len'])} |}}"
 
     def model_term(self, case):
-        o = case["_o"]
-        if isinstance(o, Err):
+        o = case.get("_o")
+        if o is None or isinstance(o, Err):
             return "(VZ 0)"
         info = {q["id"]: q for rnd in case["rounds"] for q in rnd}
         parts = [f"(run_round {clist([self.crq(q) for q in rnd])})" for rnd in case["rounds"]]
